@@ -8,6 +8,9 @@
 (* kinds: byte search  "first" "last" "count"   (n = the 1..3 needle bytes)*)
 (*        substring    "find" "rfind" "fwd" "rev" (r of fwd/rev = sequence)*)
 (*        comparison   "eq" "prefix" "suffix"     (r = 0/1)                *)
+(*        prefilter    "pre": r = candidate offset or -1, with the pair    *)
+(*                     offsets i1, i2 of the finder; checked against the   *)
+(*                     soundness predicate of C11 instead of a value       *)
 (* Every observation is a completed public call; the abstract state of the *)
 (* library between calls is empty (finders are immutable, searches are     *)
 (* pure), so each record is validated independently and the spec's `Next`  *)
@@ -39,9 +42,17 @@ Expected(t, n, h) ==
 
 \* the kinds present in a record, each oracle evaluated once
 Kinds(r) == {r.obs[k].t : k \in 1..Len(r.obs)}
+\* C11: a candidate never lies past the first occurrence, None only if the needle is absent, and the two selected
+\* needle bytes really are present at their offsets
+PreSound(o, n, h, f) ==
+  /\ (f >= 0 => o.r >= 0 /\ o.r <= f)
+  /\ (o.r >= 0 => /\ o.r + o.i1 < Len(h) /\ o.r + o.i2 < Len(h)
+                  /\ At(h, o.r + o.i1) = At(n, o.i1) /\ At(h, o.r + o.i2) = At(n, o.i2))
 BadObs(r) ==
-  LET exp == [t \in Kinds(r) |-> Expected(t, r.n, r.h)] IN
-  {k \in 1..Len(r.obs) : r.obs[k].r # exp[r.obs[k].t]}
+  LET vk == Kinds(r) \ {"pre"}
+      exp == [t \in vk |-> Expected(t, r.n, r.h)]
+      f == IF "pre" \in Kinds(r) THEN FindSub(r.h, r.n) ELSE -1 IN
+  {k \in 1..Len(r.obs) : IF r.obs[k].t = "pre" THEN ~PreSound(r.obs[k], r.n, r.h, f) ELSE r.obs[k].r # exp[r.obs[k].t]}
 BadAlloc(r) == {k \in 1..Len(r.obs) : r.obs[k].al # 0 /\ ~r.obs[k].own}
 
 Init == l = 1 /\ nviol = 0 /\ nobs = 0
